@@ -848,6 +848,19 @@ def _sink_returns(stmts):
                     c.orelse = rest_o
                     pre = [c]
                 stmts = stmts[:-1] + pre + [ret]
+            elif all(isinstance(x.value.func, ast.Attribute) and x.value.func.attr in ("debug", "info", "warning", "error", "critical") and "logger" in ast.unparse(x.value.func.value)
+                     for b in (rest_b, rest_o) for x in b):
+                # the test reads the device / calls something and the branches only log: evaluate it once into a temporary, branch and return on that
+                tmp = f"_verdict{getattr(c, 'lineno', 0)}"
+                asg = ast.copy_location(ast.Assign(targets=[ast.Name(id=tmp, ctx=ast.Store())], value=c.test, type_comment=None), c)
+                val = ast.Name(id=tmp, ctx=ast.Load()) if c.body[-1].value.value else ast.UnaryOp(op=ast.Not(), operand=ast.Name(id=tmp, ctx=ast.Load()))
+                ret = ast.copy_location(ast.Return(value=val), c.body[-1])
+                c.test = ast.copy_location(ast.Name(id=tmp, ctx=ast.Load()), c.test)
+                c.body = rest_b or [ast.copy_location(ast.Pass(), c)]
+                c.orelse = rest_o
+                for o_ in (asg, ret, c):
+                    ast.fix_missing_locations(o_)
+                stmts = stmts[:-1] + [asg, c, ret]
     return stmts
 
 
